@@ -73,6 +73,19 @@ def handlePaths (toks : List String) : Option String :=
        | some (.dir _ cs, []) => some (" ".intercalate (((walkL c [] cs).map (fun p => "/".intercalate p)).toArray.qsort (· < ·)).toList)
        | _ => some "error tree")
     | none => some "error parse"
+  -- ncache <nested root…> | <query dir…>  →  the answers of one configuration to the queries in order
+  | "ncache" :: rest =>
+    let nested := (rest.takeWhile (· != "|")).map segs
+    let qs := ((rest.dropWhile (· != "|")).drop 1).map segs
+    some (" ".intercalate ((runNested nested [] qs).map b2s))
+  -- judge:ncache <nested root…> | <query dir…> | <impl answers…> : every answer is the stateless rule
+  -- (the directory or an ancestor below the project root holds a go.mod), whatever was asked before
+  | "judge:ncache" :: rest =>
+    let nested := (rest.takeWhile (· != "|")).map segs
+    let r1 := (rest.dropWhile (· != "|")).drop 1
+    let qs := (r1.takeWhile (· != "|")).map segs
+    let ans := (r1.dropWhile (· != "|")).drop 1
+    some (if ans == (qs.map (specNested nested)).map b2s then "ok" else "bad C13:nested-module-answer-depends-on-earlier-queries")
   | "judge:pathfile" :: rest =>
     match parsePathCfg rest with
     | some (c, [f, "|", ans]) => some (if b2s (specEligible c (segs f)) == ans then "ok" else "bad C13:eligibility-differs-from-rule")
